@@ -132,3 +132,46 @@ package l1infotreesync
 //@   loop 0 invariant shouldRollback && tx != nil && lastTx == tx && tx != old(lastTx) && txState(tx) == 0
 //@   loop 0 invariant l1InfoLeavesAdded == leafCalls - old(leafCalls) && 0 <= l1InfoLeavesAdded && l1InfoLeavesAdded <= rangeindex + 1 && (initialL1InfoIndex == (l1LastIndex + 1) % 4294967296 || initialL1InfoIndex == 0)
 //@   loop 0 invariant leafCalls != old(leafCalls) ==> lastLeafIdx == (initialL1InfoIndex + l1InfoLeavesAdded - 1) % 4294967296
+
+// ---- look-ups the claim flow (C12), the certificate proofs (C09) and the oracle (C15) rest on: assumed semantics
+// (A5), texts pinned
+//@ func (p *processor) GetInfoByGlobalExitRoot
+//@   props C09 C12
+//@   trusted
+//@   sqltext "SELECT * FROM l1info_leaf WHERE global_exit_root = $1 LIMIT 1;"
+//@ func (p *processor) getInfoByIndexWithTx
+//@   props C09 C11 C12
+//@   trusted
+//@   sqltext "SELECT * FROM l1info_leaf WHERE position = $1;"
+//@ func (p *processor) GetLastInfo
+//@   props C11 C12
+//@   trusted
+//@   sqltext "SELECT * FROM l1info_leaf ORDER BY block_num DESC, block_pos DESC LIMIT 1;"
+//@ func (p *processor) GetFirstInfo
+//@   props C12
+//@   trusted
+//@   sqltext "SELECT * FROM l1info_leaf ORDER BY block_num ASC, block_pos ASC LIMIT 1;"
+//@ func (p *processor) GetFirstInfoAfterBlock
+//@   props C12
+//@   trusted
+//@   sqltext "SELECT * FROM l1info_leaf WHERE block_num >= $1 ORDER BY block_num ASC, block_pos ASC LIMIT 1;"
+//@ func (p *processor) GetFirstL1InfoWithRollupExitRoot
+//@   props C12
+//@   trusted
+//@   sqltext "SELECT * FROM l1info_leaf WHERE rollup_exit_root = $1 ORDER BY block_num ASC, block_pos ASC LIMIT 1;"
+//@ func (p *processor) GetLastVerifiedBatches
+//@   props C12
+//@   trusted
+//@   sqltext "SELECT * FROM verify_batches WHERE rollup_id = $1 ORDER BY block_num DESC, block_pos DESC LIMIT 1;"
+//@ func (p *processor) GetFirstVerifiedBatches
+//@   props C12
+//@   trusted
+//@   sqltext "SELECT * FROM verify_batches WHERE rollup_id = $1 ORDER BY block_num ASC, block_pos ASC LIMIT 1;"
+//@ func (p *processor) GetFirstVerifiedBatchesAfterBlock
+//@   props C12
+//@   trusted
+//@   sqltext "SELECT * FROM verify_batches WHERE rollup_id = $1 AND block_num >= $2 ORDER BY block_num ASC, block_pos ASC LIMIT 1;"
+//@ func (p *processor) GetProcessedBlockUntil
+//@   props C09 C15
+//@   trusted
+//@   sqltext "SELECT num, hash FROM block WHERE num <= $1 ORDER BY num DESC LIMIT 1;"
